@@ -206,6 +206,8 @@ ITEM_PRESERVING = {
     "std::slice::<impl [T]>::iter", "std::slice::<impl [T]>::last", "std::slice::<impl [T]>::first",
     "std::slice::<impl [T]>::split_last", "std::slice::<impl [T]>::split_first",
     "<std::vec::Vec<T, A> as std::ops::Index<I>>::index", "std::vec::Vec::<T, A>::pop", "std::vec::Vec::<T, A>::last",
+    "std::vec::Vec::<T, A>::as_slice", "<std::vec::Vec<T, A> as std::ops::Deref>::deref", "std::slice::<impl [T]>::to_vec",
+    "std::slice::<impl [T]>::get", "std::iter::Iterator::flatten",
 }
 
 
